@@ -11,7 +11,7 @@ META = {
         "quick": "4 reflected structs (integer widths/signedness, bool, enum, float, double, object and function pointers, char[3], int[3], int*[2], nested struct; "
                  "two field orders) on B32: guest size and every field offset vs. an independent LP32 layout; *p = tainted<S> and tainted<S> = *p with every "
                  "field value / every guest byte symbolic; by-value argument and by-value result of an invocation",
-        "thorough": "24 more structs with seeded field permutations (VERIF_SEED)",
+        "thorough": "60 more structs with seeded random field lists, some with a nested struct field (VERIF_SEED)",
     },
     "outside": "nesting depth > 2; const-qualified fields (tainted<const S> specialisations are instantiated but not exercised); unions, bit-fields",
     "assumptions": ["independent layout oracle: LP32 sizes/alignments (long, pointers 4 bytes; long long, double 8-byte aligned) computed in Python from the field list",
@@ -25,20 +25,25 @@ class F:
     def __init__(self, kind, cxx, asz, aal, gsz, gal, signed=False, sub=None, n=0):
         self.kind, self.cxx, self.asz, self.aal, self.gsz, self.gal, self.signed, self.sub, self.n = kind, cxx, asz, aal, gsz, gal, signed, sub, n
 
+    def dims(self):
+        return ([self.n] + self.sub.dims()) if self.kind == "arr" else []
+
+    def leaf(self):
+        return self.sub.leaf() if self.kind == "arr" else self
+
     def decl(self, name):
-        if self.kind == "arr":
-            return self.sub.decl(name) + "[%d]" % self.n
-        if self.kind == "fnptr":
-            return "int (*%s)(int)" % name
-        return "%s %s" % (self.cxx, name)
+        d = "".join("[%d]" % x for x in self.dims())
+        lf = self.leaf()
+        if lf.kind == "fnptr":
+            return "int (*%s%s)(int)" % (name, d)
+        return "%s %s%s" % (lf.cxx, name, d)
 
     def refl(self):
-        if self.kind == "arr":
-            base = self.sub.refl()
-            return base + "[%d]" % self.n if "(*)" not in base else base.replace("(*)", "(*[%d])" % self.n)
-        if self.kind == "fnptr":
-            return "int (*)(int)"
-        return self.cxx
+        d = "".join("[%d]" % x for x in self.dims())
+        lf = self.leaf()
+        if lf.kind == "fnptr":
+            return "int (*%s)(int)" % d if d else "int (*)(int)"
+        return lf.cxx + d
 
 
 def INTF(cxx, bits, signed, gbits=None):
@@ -46,13 +51,17 @@ def INTF(cxx, bits, signed, gbits=None):
     return F("int", cxx, bits // 8, bits // 8, g, g, signed)
 
 
-T = {
-    "char": INTF("char", 8, True), "schar": INTF("signed char", 8, True), "uchar": INTF("unsigned char", 8, False), "short": INTF("short", 16, True),
-    "ushort": INTF("unsigned short", 16, False), "int": INTF("int", 32, True), "uint": INTF("unsigned int", 32, False), "long": INTF("long", 64, True, 32),
-    "ulong": INTF("unsigned long", 64, False, 32), "llong": INTF("long long", 64, True), "ullong": INTF("unsigned long long", 64, False),
-    "bool": F("bool", "bool", 1, 1, 1, 1), "enum": F("raw", "VEnum8", 4, 4, 4, 4), "float": F("raw", "float", 4, 4, 4, 4), "double": F("raw", "double", 8, 8, 8, 8),
-    "intp": F("ptr", "int*", 8, 8, 4, 4), "voidp": F("ptr", "void*", 8, 8, 4, 4), "fnptr": F("fnptr", "fn", 8, 8, 4, 4),
-}
+def make_types(pg):
+    return {
+        "char": INTF("char", 8, True), "schar": INTF("signed char", 8, True), "uchar": INTF("unsigned char", 8, False), "short": INTF("short", 16, True),
+        "ushort": INTF("unsigned short", 16, False), "int": INTF("int", 32, True), "uint": INTF("unsigned int", 32, False), "long": INTF("long", 64, True, 32),
+        "ulong": INTF("unsigned long", 64, False, 32), "llong": INTF("long long", 64, True), "ullong": INTF("unsigned long long", 64, False),
+        "bool": F("bool", "bool", 1, 1, 1, 1), "enum": F("raw", "VEnum8", 4, 4, 4, 4), "float": F("raw", "float", 4, 4, 4, 4), "double": F("raw", "double", 8, 8, 8, 8),
+        "intp": F("ptr", "int*", 8, 8, pg, pg), "voidp": F("ptr", "void*", 8, 8, pg, pg), "fnptr": F("fnptr", "fn", 8, 8, pg, pg),
+    }
+
+
+T = make_types(4)
 
 
 def ARR(sub, n):
@@ -143,7 +152,8 @@ def rel_to_guest(f, app, guest, base):
         return [guest[0] == app[0]], []
     if f.kind in ("ptr", "fnptr"):
         a = cat(app)
-        return [cat(guest) == z3.If(a == 0, BV(0, 32), z3.Extract(31, 0, a - base))], []
+        gb = f.gsz * 8
+        return [cat(guest) == z3.If(a == 0, BV(0, gb), z3.Extract(gb - 1, 0, a - base))], []
     if f.kind == "arr":
         cs, fs = [], []
         for i in range(f.n):
@@ -171,7 +181,7 @@ def rel_to_app(f, guest, app, base):
         return [app[0] == guest[0]]
     if f.kind in ("ptr", "fnptr"):
         g = cat(guest)
-        return [cat(app) == z3.If(g == 0, BV(0, 64), base + zext(g, 64))]
+        return [cat(app) == z3.If(g == 0, BV(0, 64), base + zext(g, 64))]   # (B64: representations are assumed < SIZE by the load checks)
     if f.kind == "arr":
         cs = []
         for i in range(f.n):
@@ -276,6 +286,14 @@ def leaf_app(f, off):
     return [(off, f.asz, f.kind)]
 
 
+def leaf_guest(f, off):
+    if f.kind == "arr":
+        return sum([leaf_guest(f.sub, off + i * f.sub.gsz) for i in range(f.n)], [])
+    if f.kind == "struct":
+        return sum([leaf_guest(sf, off + go) for (nm, sf), go in zip(f.st.fields, f.st.goff)], [])
+    return [(off, f.gsz, f.kind)]
+
+
 def check_load(ctx, st, form):
     base = ctx.sandbox_base(32)
     out = ctx.buffer(st.asz, name="out")
@@ -291,6 +309,9 @@ def check_load(ctx, st, form):
     guest = [z3.Select(mem0, p + BV(i, 64)) for i in range(st.gsz)]
     for o in bool_bytes(f, 0, guest):
         ctx.assume(z3.ULE(guest[o], 1))
+    for (o, sz, kind) in leaf_guest(f, 0):
+        if kind in ("ptr", "fnptr") and sz == 8:
+            ctx.assume(z3.ULT(cat(guest[o:o + 8]), BV(SIZE, 64)))
     paths = ctx.run("k_%s_%s" % (form, st.name), args)
     for q in paths:
         if q.status == "ret":
@@ -334,13 +355,15 @@ def check_roundtrip(ctx, st):
 
 
 # ------------------------------------------------------------------ struct families
-def base_structs():
+def base_structs(T=T):
     inner = ST("SInner", [("m_x", T["short"]), ("m_y", T["long"])])
     s1 = ST("S1", [("m_a", T["char"]), ("m_b", T["long"]), ("m_c", T["short"]), ("m_p", T["intp"]), ("m_d", T["ullong"]), ("m_arr", ARR(T["char"], 3)), ("m_e", T["uint"])])
     s2 = ST("S2", [("m_f", T["bool"]), ("m_g", T["double"]), ("m_h", T["ulong"]), ("m_fn", T["fnptr"]), ("m_i", T["float"]), ("m_en", T["enum"]), ("m_ia", ARR(T["int"], 3))])
     s3 = ST("S3", [("m_l1", T["long"]), ("m_in", inner.as_field()), ("m_pa", ARR(T["intp"], 2)), ("m_sc", T["schar"]), ("m_ll", T["llong"])])
     s4 = ST("S4", list(reversed(s1.fields)))
-    return [inner, s1, s2, s3, s4]
+    s5 = ST("S5", [("m_grid", ARR(ARR(T["char"], 3), 2)), ("m_l2", ARR(ARR(T["long"], 2), 2)), ("m_us", ARR(ARR(T["ushort"], 3), 2)), ("m_z", T["int"]),
+                   ("m_pp", ARR(ARR(T["intp"], 2), 2))])
+    return [inner, s1, s2, s3, s4, s5]
 
 
 def random_structs(seed, count):
@@ -355,28 +378,34 @@ def random_structs(seed, count):
             if rnd.random() < 0.2 and t.kind in ("int", "ptr"):
                 t = ARR(t, rnd.randint(2, 3))
             fields.append(("m_f%d" % j, t))
+        if i % 4 == 3 and out:
+            # nest the previously generated struct of this group (declared before its user)
+            fields.insert(rnd.randint(0, len(fields)), ("m_nested", out[-1].as_field()))
         out.append(ST("R%d_%d" % (seed % 1000, i), fields))
     return out
 
 
 def jobs(tier, seed):
-    groups = [base_structs()]
+    groups = [("B32", base_structs())]
+    t64 = make_types(8)
+    b64 = base_structs(t64)
+    groups.append(("B64", [b64[0], b64[3], b64[5]]))          # nested + pointer arrays + 2-D arrays on a host-width, non-identity pointer representation
     if tier == "thorough":
-        rs = random_structs(seed, 24)
-        groups += [rs[i:i + 4] for i in range(0, len(rs), 4)]
+        rs = random_structs(seed, 60)
+        groups += [("B32", rs[i:i + 4]) for i in range(0, len(rs), 4)]
     out = []
-    for gi, structs in enumerate(groups):
-        head = '#include "verif_sandbox.hpp"\n#include "rbtree_model.cpp"\n#include <cstddef>\nusing S = B32;\n' + gen_struct_src(structs) + "using namespace rlbox;\n"
+    for gi, (sbx, structs) in enumerate(groups):
+        head = ('#include "verif_sandbox.hpp"\n#include "rbtree_model.cpp"\n#include <cstddef>\nusing S = %s;\n' % sbx) + gen_struct_src(structs) + "using namespace rlbox;\n"
         for st in structs:
             if st.name == "SInner":
                 continue
             src = head + gen_kernels(st)
-            chks = [dict(name="%s layout" % st.name, fn=check_layout, kw=dict(st=st)),
-                    dict(name="%s store" % st.name, fn=check_store, kw=dict(st=st)),
-                    dict(name="%s load" % st.name, fn=check_load, kw=dict(st=st, form="load")),
-                    dict(name="%s load (UNSAFE_unverified)" % st.name, fn=check_load, kw=dict(st=st, form="loadu")),
-                    dict(name="%s by-value argument" % st.name, fn=check_store, kw=dict(st=st, byval=True)),
-                    dict(name="%s by-value result" % st.name, fn=check_load, kw=dict(st=st, form="byval_ret")),
-                    dict(name="%s round trip" % st.name, fn=check_roundtrip, kw=dict(st=st))]
-            out.append(Job("C08_%s" % st.name, src, chks, native=False))
+            chks = [dict(name="%s %s layout" % (sbx, st.name), fn=check_layout, kw=dict(st=st)),
+                    dict(name="%s %s store" % (sbx, st.name), fn=check_store, kw=dict(st=st)),
+                    dict(name="%s %s load" % (sbx, st.name), fn=check_load, kw=dict(st=st, form="load")),
+                    dict(name="%s %s load (UNSAFE_unverified)" % (sbx, st.name), fn=check_load, kw=dict(st=st, form="loadu")),
+                    dict(name="%s %s by-value argument" % (sbx, st.name), fn=check_store, kw=dict(st=st, byval=True)),
+                    dict(name="%s %s by-value result" % (sbx, st.name), fn=check_load, kw=dict(st=st, form="byval_ret")),
+                    dict(name="%s %s round trip" % (sbx, st.name), fn=check_roundtrip, kw=dict(st=st))]
+            out.append(Job("C08_%s_%s" % (sbx, st.name), src, chks, native=False))
     return out
